@@ -24,7 +24,9 @@ STR_EDGE = ["", "a", "b", "doc", "x y", "\n", "\x00", "\x7f", "é", " ", "\U00
             "😀", "'", '"', "\\", "nan", "inf", "͸", "\U000e0100", "{}", "%s",
             # a lone surrogate next to characters whose printability depends on the interpreter's
             # Unicode database version (assigned in Unicode 12-15)
-            "\ud800\u0870", "\udc80\U0001fae0", "\ud800\u0cf3", "\U0001fae0"]
+            "\ud800\u0870", "\udc80\U0001fae0", "\ud800\u0cf3", "\U0001fae0",
+            # line separators that str.splitlines() honours and JSON emits raw
+            "a\u2028b", "\x85", "x\u2029", "\x0c\x1c\x1d\x1e"]
 BYTES_EDGE = [b"", b"a", b"\x00", b"\xff\xfe", b"doc", b"'\"\\"]
 
 
